@@ -120,7 +120,7 @@ func Explore(r *fw.Run, work bool, seeds []string, ops []Op, depth int, chk Chec
 				if msg != "" {
 					c.Check = "state"
 					l.Outcomes["state:VIOLATION"]++
-					r.Violation(c.Key(), msg, c)
+					report(r, c, msg)
 				} else {
 					l.Outcomes["state:ok"]++
 				}
@@ -204,7 +204,7 @@ func ArgSweep(r *fw.Run, chk Checker, maxLen int) {
 				}
 				if msg != "" {
 					l.Outcomes["argument-sweep:VIOLATION"]++
-					r.Violation(c.Key(), msg, c)
+					report(r, c, msg)
 				} else {
 					l.Outcomes["argument-sweep:ok"]++
 				}
@@ -212,3 +212,16 @@ func ArgSweep(r *fw.Run, chk Checker, maxLen int) {
 		}
 	})
 }
+
+// report files a violation; a message that starts with "class:<name>|" belongs to a recorded finding class
+// and is filed under the class key (KNOWN-FINDING if listed in known_findings.txt, a violation otherwise).
+func report(r *fw.Run, c Case, msg string) {
+	if cls, rest, ok := strings.Cut(msg, "|"); ok && strings.HasPrefix(cls, "class:") {
+		r.Violation(cls, rest, c)
+		return
+	}
+	r.Violation(c.Key(), msg, c)
+}
+
+// Report is report for the property packages (replay).
+func Report(r *fw.Run, c Case, msg string) { report(r, c, msg) }
